@@ -143,6 +143,10 @@ def _run_variant(args):
         return variant["name"], "silent", []
 
 
+# seeds whose mechanism is documented as undecidable by shape (DESIGN 9.3)
+ERROR_ONLY_ACCEPTED = {"C13-s1"}
+
+
 def run(prop: str, res: Result) -> None:
     from .variants import VARIANTS
     variants = list(VARIANTS.get(prop, [])) + patch_variants(prop)
@@ -164,6 +168,11 @@ def run(prop: str, res: Result) -> None:
         table.append({"variant": name, "expect": v["expect"],
                       "verdict": verdict, "detail": detail})
         if verdict in ("MISSED", "FALSE-ALARM") or verdict.startswith("crash"):
+            bad.append(f"{name}: {verdict} {detail}")
+        elif verdict == "analysis-error-only" and name.split("/")[-1] \
+                not in ERROR_ONLY_ACCEPTED:
+            # a seeded defect that used to be reported and now only makes a
+            # rule give up is a regression of the machinery
             bad.append(f"{name}: {verdict} {detail}")
     res.extra["selftest"] = {
         "variants": len(variants),
